@@ -166,7 +166,20 @@ def check_chain(case, rec):
 @st.composite
 def coord_cases(draw, tier):
     r = draw(gentopo.recipes(maxops=2, ops=('refine', 'refined_by', 'take', 'boundary', 'trim')))
-    return dict(mesh=r, what=draw(st.sampled_from(['f_index', 'interfaces', 'locate', 'locate'])), sel=[draw(st.integers(0, 200)) for _ in range(5)], outside=draw(st.booleans()), degree=draw(st.integers(1, 3)))
+    return dict(mesh=r, what=draw(st.sampled_from(['f_index', 'interfaces', 'locate', 'locate'])), sel=[draw(st.integers(0, 200)) for _ in range(5)], outside=draw(st.booleans()), degree=draw(st.integers(1, 3)),
+                separable=_separable(draw, r))
+
+
+def _separable(draw, r):
+    if draw(st.integers(0, 2)):
+        return None
+    cs = [draw(st.sampled_from([0., 0., .3, -.2, .5])) for _ in range(3)]
+    if draw(st.booleans()):      # nonlinear in exactly one direction
+        k = draw(st.integers(0, 2)); cs = [c if i == k else 0. for i, c in enumerate(cs)]
+        if not cs[k]: cs[k] = .4
+    if r['kind'] in ('line', 'rect', 'rect3') and draw(st.booleans()):
+        r['ops'] = []            # the plain structured mesh: its own locate implementation
+    return cs
 
 
 def check_coords(case, rec):
@@ -177,6 +190,12 @@ def check_coords(case, rec):
         if len(topo) == 0:
             raise Discard('empty-topology')
         geom, gfun = gentopo.geometry(x, case['mesh']['geom'], topo0.ndims)
+        if case.get('separable') and case['mesh']['kind'] in ('line', 'rect', 'rect3'):
+            # axis-aligned geometry, (non)linear per direction: x_i -> x_i (1 + c_i x_i), monotone on the unit box (structured meshes detect
+            # affine geometries of this form and locate by division)
+            cs = case['separable'][:topo0.ndims]
+            geom = numpy.stack([x[i] * (1 + c * x[i]) for i, c in enumerate(cs)])
+            rec.label('separable-geometry')
         what = case['what']
         if what == 'f_index':
             smp = topo.sample('gauss', case['degree'])
@@ -253,7 +272,7 @@ def check_coords(case, rec):
 
 SUBS = [Sub('lookup', lookup_cases, check_lookup, {'quick': 150, 'thorough': 3000}, weight=3, timeout=120),
         Sub('chains', chain_cases, check_chain, {'quick': 2000, 'thorough': 40000}, weight=1),
-        Sub('coords', coord_cases, check_coords, {'quick': 60, 'thorough': 1200}, weight=2, timeout=120)]
+        Sub('coords', coord_cases, check_coords, {'quick': 250, 'thorough': 3000}, weight=2, timeout=120)]
 
 TRIGGERS = {}
 
